@@ -78,8 +78,26 @@ func RunC01(t *testing.T, spec kernel.Spec) *kernel.Outcome {
 				}
 				c01Kid = fmt.Sprintf("k%d", remote.gen)
 				remote.hit = false
+				c01AfterSleep = nil
+				if ch.Bool(1, 4) {
+					// two key renames in one instant: another token is verified under the first new name (a download
+					// happens now), the provider renames again, and the step's token - signed under that second name -
+					// is verified in the same second
+					c01Kid = fmt.Sprintf("k%d", remote.gen+2)
+					c01AfterSleep = func() {
+						remote.gen++
+						dummy := signRaw([]byte(`{"iss":"https://op.sim","sub":"warm"}`), fam.Alg, key.Key, fmt.Sprintf("k%d", remote.gen))
+						if jws, err := jose.ParseSigned(dummy, []jose.SignatureAlgorithm{fam.Alg}); err == nil {
+							if _, err := ks.VerifySignature(context.Background(), jws); err == nil {
+								o.Probe("download-and-rotation-in-one-second")
+							}
+						}
+						remote.gen++
+					}
+				}
 			}
 			d := c01One(o, i, ch, fam.Alg, key, wrong, ks)
+			c01AfterSleep = nil
 			if remote != nil && remote.hit {
 				o.Fault("jwks-" + remote.lastFault)
 			}
@@ -262,6 +280,9 @@ func c01One(o *kernel.Outcome, step int, ch *kernel.Chooser, alg jose.SignatureA
 	// ---- the simulator moves the clock to the instant of verification ----
 	time.Sleep(delta)
 	o.SimSeconds += delta.Seconds()
+	if c01AfterSleep != nil {
+		c01AfterSleep()
+	}
 	var got *oidc.IDTokenClaims
 	var err error
 	if c.withAccess {
@@ -314,6 +335,8 @@ func staticOrSame(ks oidc.KeySet) oidc.KeySet { return ks }
 var (
 	c01Kid     = "k1"
 	c01Faulted bool
+	// c01AfterSleep runs at the instant of verification, right before the step's own verification
+	c01AfterSleep func()
 )
 
 // c01JWKS is the JWKS endpoint of the remote-key-set worlds.
